@@ -1,3 +1,5 @@
 import Cherab.Props.C15Table
 open Cherab.Props.C15Table
 #print axioms table_wf
+#print axioms table_broadcast_wf
+#print axioms table_special_wf
